@@ -10,10 +10,6 @@ FAM = {
     what="RESIZE_BILINEAR with half_pixel_centers: the 2x2 depthwise steps read one row/column more than npu_op.ifm.shape (edge replication through the tile bases); calc_blockdep clips its first-job IFM volume to ifm.shape, misses the overlap with the producer's last OFM block and programs BLOCKDEP too large",
     ctx=dict(requires_layers=["RESIZE_BILINEAR"], max_layers=8, kind_any=["DEPTHWISE"]),
     sigs={"C04": ["async_uninit_read", "async_foreign_read", "reads_from_divergence"], "C10": ["gap_async_uninit_read"]}),
- "F11b-mean-over-width-only": dict(
-    what="MEAN over the W axis only of a tensor with H > 1 (same root cause as F11): the depthwise operator it is lowered to has an OFM depth of H*C while weights and scale records exist for C channels only; values are wrong and the scale/weight fetch runs past the encoded range",
-    ctx=dict(requires_layers=["MEAN"], max_layers=12),
-    sigs={"C01": ["weight_stream_malformed", "value_mismatch"], "C10": ["weight_stream_malformed", "value_mismatch"], "C08": ["weight_stream_malformed", "scale_record_count"]}),
 }
 FIXED = [
  "fixed: property=C13 54fac24 every network with weights aborted with OverflowError (int32 memory histogram minus 1<<32 under NumPy 2), live_range.py:149 / scheduler.py:667",
@@ -58,7 +54,7 @@ FIXED = [
  "fixed: property=C02 dd159c1 (was known finding F02) a Memcpy (RESHAPE of a shared tensor, MEAN over unit axes) took over a fused slice read and copied from the start of the whole tensor: accesses outside the destination / scratch extent (findings/FX-F02-mean-unit-axis-memcpy.C02.json)",
  "fixed: property=C03 37324e6 RELU with differing input and output scaling next to a bypassed RESHAPE: inserted average pool recomputed its shapes from the tensors (same class as 92fd28e)",
  "fixed: property=C13 766b4ac RESIZE_NEAREST_NEIGHBOR align_corners in front of a bypassed RESHAPE: kernel sized from the depth of the reshaped OFM tensor (same class as 92fd28e)",
- "fixed: property=C03 0eb36a3 MEAN in front of a bypassed RESHAPE: the int32 partial-sum tensors took the reshaped shape of the OFM tensor, the depthwise convolution described its IFM with it and read undefined bytes (same class as 92fd28e) (findings/FX-mean-behind-bypassed-reshape.C03.json)",
+ "fixed: property=C03 0eb36a3 MEAN in front of a bypassed RESHAPE: the int32 partial-sum tensors took the reshaped shape of the OFM tensor, the depthwise convolution described its IFM with it and read undefined bytes (same class as 92fd28e); this was the cause of the former known findings F11 / F11b, whose examples all had a RESHAPE behind the MEAN (findings/FX-mean-behind-bypassed-reshape.C03.json, FX-F11-mean-over-width-only.C04.json, FX-F11b-mean-over-width-only.C01.json)",
  "fixed: property=C12 c7adebd two CPU-resident memory only operators in a row (RESHAPE ; RESHAPE at the end of a network) were packed into one pass; the tensor between them got no live range and was published at arena offset 0 on top of a live tensor (findings/FX-two-cpu-reshapes-unallocated.C12.json)",
  "fixed: property=C03 a42dec3 PRELU (general lowering to MIN/MUL/RELU/ADD or MUL/MAX) in front of a bypassed RESHAPE: new operations and intermediate tensors took the reshaped shape of the OFM tensor (same class as 92fd28e); reads of undefined bytes and of bytes written as another tensor (findings/FX-prelu-behind-bypassed-reshape.C03.json)",
  "fixed: property=C10 56354b4 (was known finding F09) a 2x nearest-neighbour upscaling operation at the end of a cascade was striped with odd stripe heights: later stripes start on an odd OFM row (the hardware pairs rows from the stripe start, wrong rows are replicated) and the last IFM row of a stripe lies outside its IFM box (fetched through an unused tile base: undefined bytes, accesses outside the extent, DMA/kernel conflicts) (findings/FX-F09-odd-stripe-nearest-upscale.C03.json, .C04-dma.json, FX-F09-odd-final-stripe-nearest-upscale.C01.json)",
@@ -82,10 +78,6 @@ EXTRA = [
       signature={"oracle": "fast_scratch_exceeds_arena_cache", "rounding_only": True},
       what="--arena-cache-size that is not a multiple of 16 in a Dedicated_Sram mode: the allocator keeps the fast scratch within the limit but the published tensor size is rounded up to the next multiple of 16, i.e. up to 15 bytes past the configured cache size",
       example="findings/F10-fast-scratch-rounded-past-cache.C02.json"),
- dict(id="F11-mean-over-width-only", property="C04", status="known",
-      signature={"oracle": "inflight_conflict"}, requires_layers=["MEAN"], max_layers=8,
-      what="MEAN over the W axis only of a tensor with H>1: the depthwise operator it is lowered to is given an OFM of 1 x H while its IFM tiles describe 1 x W; the columns beyond IFM_WIDTH0 are fetched through the unused tile base (address 0) and collide with an in-flight weight DMA",
-      example="findings/F11-mean-over-width-only.C04.json"),
 ]
 def main():
     import os
